@@ -354,6 +354,9 @@ package lnwallet
 //@        arg(3) == ret(DeriveCommitmentKeys) && arg(4) == retn(PrivKeyFromBytes, 0)
 //@   site call WitnessScriptForPath nth 0: assert arg(1) == input.ScriptPathDelay
 //@   site call WitnessScriptForPath nth 1: assert arg(1) == input.ScriptPathRevocation
+//@   // taproot: the control block proves the same leaf the witness script is
+//@   site call CtrlBlockForPath nth 0: assert arg(1) == input.ScriptPathDelay
+//@   site call CtrlBlockForPath nth 1: assert arg(1) == input.ScriptPathRevocation
 //@   site store SignDescriptor.DoubleTweak: assert value == retn(PrivKeyFromBytes, 0)
 //@   site store SignDescriptor.SingleTweak: assert value == ret(DeriveCommitmentKeys).LocalCommitKeyTweak
 //@   site store TxOut.Value nth 0: assert value >= chanState.RemoteChanCfg.DustLimit
@@ -659,6 +662,9 @@ package lnwallet
 //@   site call genHtlcScript: assert arg(chanType) == chanType && !arg(isIncoming) && arg(whoseCommit) == whoseCommit &&
 //@        arg(timeout) == htlc.RefundTimeout && arg(rHash) == htlc.RHash && arg(keyRing) == keyRing
 //@   site call WitnessScriptForPath nth 0: assert arg(1) == input.ScriptPathTimeout && retn(genHtlcScript, 1) == nil
+//@   site call WitnessScriptForPath nth 1: assert arg(1) == input.ScriptPathSuccess
+//@   site call CtrlBlockForPath nth 0: assert arg(1) == input.ScriptPathTimeout
+//@   site call CtrlBlockForPath nth 1: assert arg(1) == input.ScriptPathSuccess
 //@   site call HtlcTimeoutFee: assert arg(chanType) == chanType && arg(feePerKw) == feePerKw
 //@   site call HtlcTimeoutFee as fee-domain: domain 0 <= feePerKw && feePerKw <= 1<<40
 //@   site call CreateHtlcTimeoutTx: assert !whoseCommit.IsRemote() && arg(chanType) == chanType && arg(initiator) == isCommitFromInitiator &&
@@ -710,6 +716,9 @@ package lnwallet
 //@   site call genHtlcScript: assert arg(chanType) == chanType && arg(isIncoming) && arg(whoseCommit) == whoseCommit &&
 //@        arg(timeout) == htlc.RefundTimeout && arg(rHash) == htlc.RHash && arg(keyRing) == keyRing
 //@   site call WitnessScriptForPath nth 0: assert arg(1) == input.ScriptPathSuccess && retn(genHtlcScript, 1) == nil
+//@   site call WitnessScriptForPath nth 1: assert arg(1) == input.ScriptPathSuccess
+//@   site call CtrlBlockForPath nth 0: assert arg(1) == input.ScriptPathSuccess
+//@   site call CtrlBlockForPath nth 1: assert arg(1) == input.ScriptPathSuccess
 //@   site call HtlcSuccessFee: assert arg(chanType) == chanType && arg(feePerKw) == feePerKw
 //@   site call HtlcSuccessFee as fee-domain: domain 0 <= feePerKw && feePerKw <= 1<<40
 //@   site call CreateHtlcSuccessTx: assert !whoseCommit.IsRemote() && arg(chanType) == chanType && arg(initiator) == isCommitFromInitiator &&
@@ -791,6 +800,7 @@ package lnwallet
 //@        arg(csvDelay) == csvTimeout && arg(leaseExpiry) == leaseExpiry
 //@   site call FlatMapOption: assert leaseExpiry == ite(chanState.ChanType.HasLeaseExpiration(), chanState.ThawHeight, 0)
 //@   site call WitnessScriptForPath: assert arg(1) == input.ScriptPathDelay
+//@   site call CtrlBlockForPath: assert arg(1) == input.ScriptPathDelay
 //@   site store CommitOutputResolution.MaturityDelay: assert value == csvTimeout
 //@   site store SignDescriptor.KeyDesc: assert value.PubKey == chanState.LocalChanCfg.DelayBasePoint.PubKey
 //@   site store SignDescriptor.SingleTweak: assert value == ret(DeriveCommitmentKeys).LocalCommitKeyTweak
@@ -826,6 +836,7 @@ package lnwallet
 //@   site call CommitScriptToRemote: assert arg(chanType) == chanState.ChanType && arg(initiator) == isRemoteInitiator &&
 //@        arg(remoteKey) == ret(DeriveCommitmentKeys).ToRemoteKey && arg(leaseExpiry) == leaseExpiry && retn(extractHtlcResolutions, 1) == nil
 //@   site call WitnessScriptForPath: assert arg(1) == input.ScriptPathSuccess
+//@   site call CtrlBlockForPath: assert arg(1) == input.ScriptPathSuccess
 //@   site store CommitOutputResolution.MaturityDelay: assert value == retn(CommitScriptToRemote, 1) && retn(CommitScriptToRemote, 2) == nil
 //@   site store SignDescriptor.KeyDesc: assert value.PubKey == chanState.LocalChanCfg.PaymentBasePoint.PubKey
 //@   site store SignDescriptor.SingleTweak: assert value == ret(DeriveCommitmentKeys).LocalCommitKeyTweak
@@ -888,3 +899,10 @@ package lnwallet
 //@        arg(stateNum) == lc.channelState.LocalCommitment.CommitHeight
 //@   site store LocalForceCloseSummary.CloseTx: assert value == retn(getSignedCommitTx, 0) && retn(getSignedCommitTx, 1) == nil
 //@   site store LightningChannel.isClosed: assert value && retn(NewLocalForceCloseSummary, 1) == nil
+//@
+//@ func createStateHintObfuscator
+//@   props C04
+//@   site call DeriveStateHintObfuscator nth 0: assert state.IsInitiator &&
+//@        arg(0) == state.LocalChanCfg.PaymentBasePoint.PubKey && arg(1) == state.RemoteChanCfg.PaymentBasePoint.PubKey
+//@   site call DeriveStateHintObfuscator nth 1: assert !state.IsInitiator &&
+//@        arg(0) == state.RemoteChanCfg.PaymentBasePoint.PubKey && arg(1) == state.LocalChanCfg.PaymentBasePoint.PubKey
